@@ -103,6 +103,8 @@ def ob_sql_resubmit_sequence(seq: List[int]) -> str:
         after = sorted(r["id"] for r in S.rows(st))
         if not changed:
             nontrivial = True
+            if ev["id"] not in before:
+                return "event %s answered 'duplicate' although the relay does not hold it (sequence %r)" % (ev["id"][-2:], seq)
             if after != before:
                 return "a submission answered 'duplicate' changed the store from %r to %r (sequence %r)" % (
                     [i[-2:] for i in before], [i[-2:] for i in after], seq)
